@@ -95,6 +95,9 @@ def items(tier):
     # real dense matrix, complex applied loads (NumPy's real/complex assignment rules modelled: logical dtypes)
     add("sysofeq", "n3-f02-de-cplxloads", n=3, free=[0, 2], mclass="general", sparse=False, cplx_rhs=True, logical_dtype=True)
     add("sysofeq", "n2-f0-de-cplxloads", n=2, free=[0], mclass="general", sparse=False, cplx_rhs=True, logical_dtype=True)
+    # complex matrix, real applied loads and prescribed values: the reactions b_p are complex
+    add("sysofeq", "n2-f0-de-cplxA-realloads", n=2, free=[0], mclass="general", cplx=True, sparse=False, real_loads=True, logical_dtype=True)
+    add("sysofeq", "n3-f02-sp-cplxA-realloads", n=3, free=[0, 2], mclass="general", cplx=True, sparse=True, real_loads=True, logical_dtype=True)
     # index sets in the user's own (not ascending) order: b_f and x_p follow that order
     add("sysofeq", "n3-f20-unsorted", n=3, free=[2, 0], mclass="general", sparse=True)
     add("sysofeq", "n3-p20-unsorted", n=3, free=[1], pres=[2, 0], mclass="general", sparse=False)
